@@ -15,7 +15,7 @@ import (
 
 // C15: outcomes are deterministic.
 
-var c15Kinds = []string{"help-map-default", "man-page", "ini-write-maps", "ini-same-option-in-sections", "ini-two-unknown-sections", "required-list", "command-list", "completion-list", "choice-message", "env-map-default", "help-full", "ini-callbacks-in-sections", "ini-read-then-write"}
+var c15Kinds = []string{"help-map-default", "man-page", "ini-write-maps", "ini-same-option-in-sections", "ini-two-unknown-sections", "required-list", "command-list", "completion-list", "choice-message", "env-map-default", "help-full", "ini-callbacks-in-sections", "ini-read-then-write", "duplicate-flag-message"}
 
 func c15Decl(r *Rand, kind string) *Decl {
 	cfg := &DeclCfg{
@@ -37,7 +37,29 @@ func c15Decl(r *Rand, kind string) *Decl {
 	case "ini-callbacks-in-sections":
 		cfg.Types = append(cfg.Types, TypeSpec{K: KString, W: WFunc1}, TypeSpec{K: KString, W: WFunc1}, TypeSpec{W: WFunc0})
 	}
+	if kind == "duplicate-flag-message" {
+		cfg.OptsMin, cfg.OptsMax, cfg.PShortOnly, cfg.PLongOnly, cfg.PNamespace = 5, 8, 0, 0, 0
+	}
 	d := GenDecl(r, cfg)
+	if kind == "duplicate-flag-message" {
+		// several independent clashes in one declaration: which one is reported must not be left to chance
+		var own []*Opt
+		for _, o := range d.Opts {
+			if o.Cmd == d.Root && o.Long != "" && o.Short != 0 && len(o.NsChain()) == 0 {
+				own = append(own, o)
+			}
+		}
+		for i := 0; i+1 < len(own); i += 2 {
+			switch r.Intn(3) {
+			case 0:
+				own[i+1].Long = own[i].Long
+			case 1:
+				own[i+1].Short = own[i].Short
+			default:
+				own[i+1].Long, own[i+1].Short = own[i].Long, own[i].Short
+			}
+		}
+	}
 	if kind == "completion-list" || kind == "help-full" || kind == "required-list" {
 		// names that differ only in letter case (an ordering that ignores case would leave them to chance)
 		var shortOnly, longs []*Opt
@@ -298,6 +320,16 @@ func c15Run(c *Ctx) {
 			os.Unsetenv("GO_FLAGS_COMPLETION")
 			return strings.Join(got, "\n"), nil
 		}
+	case "duplicate-flag-message":
+		eval = func() (string, error) {
+			_, b := mk()
+			_, err := b.P.ParseArgs(nil)
+			if fe, ok := err.(*flags.Error); !ok || fe.Type != flags.ErrDuplicatedFlag {
+				return "", nil // fewer than two options to clash with: nothing to compare
+			}
+			detail = "duplicated-flag error"
+			return fmt.Sprintf("%v", err), nil
+		}
 	case "choice-message":
 		var co *Opt
 		for _, o := range d0.Opts {
@@ -380,6 +412,9 @@ func c15Run(c *Ctx) {
 			ord += fmt.Sprint(k)
 		}
 		canary[ord] = true
+	}
+	if kind == "duplicate-flag-message" && first == "" {
+		return // no clash could be built into this declaration
 	}
 	c.Count("evaluations", int64(reps))
 	c.Count("canary_orders_seen_max", 0)
@@ -473,7 +508,7 @@ func init() {
 		},
 		MinNontrivial: 100,
 		RaceCases:     3000,
-		Rule: "scenario s = k mod S (S = 480 quick, 6000 thorough), kind = s mod 12: help with pre-populated map options (3-12 keys) as defaults, full help, man page (SOURCE_DATE_EPOCH fixed), INI output of maps under random write options, INI input setting one option in 2-4 sections (preamble, [Application Options], the group's section, a case variant) plus callbacks spread over sections, three unknown sections at once, required-flag list, command list / unknown command, completion list, invalid-choice message, map default from an environment variable with 10 entries. Each scenario is evaluated 256 times on fresh parsers in one process (SHA-256 of every observable: bytes written, Error.Message, completion items, value snapshot, call log) and again in 2 (quick) / 4 (thorough) different processes whose digests the parent compares. " +
+		Rule: "scenario s = k mod S (S = 480 quick, 6000 thorough), kind = s mod 14: help with pre-populated map options (3-12 keys) as defaults, full help, man page (SOURCE_DATE_EPOCH fixed), INI output of maps under random write options, INI input setting one option in 2-4 sections (preamble, [Application Options], the group's section, a case variant) plus callbacks spread over sections, three unknown sections at once, required-flag list, command list / unknown command, completion list, invalid-choice message, map default from an environment variable with 10 entries, the duplicated-flag error of a declaration with several independent name clashes. Each scenario is evaluated 256 times on fresh parsers in one process (SHA-256 of every observable: bytes written, Error.Message, completion items, value snapshot, call log) and again in 2 (quick) / 4 (thorough) different processes whose digests the parent compares. " +
 			"A canary map ranged once per evaluation counts the distinct iteration orders the runtime actually produced. distinct = (kind, #maps, #options, #commands, output size).",
 		Assumptions: []string{"only iteration-order non-determinism that the Go runtime actually exhibits is reachable; the library has no goroutines, so there is no scheduler to explore"},
 		Technique:   "runtime repetition monitor: digest equality of all observables across 256 in-process evaluations and across separate processes, with a map-order canary; race detector on 16 concurrent goroutines (thorough)",
